@@ -573,7 +573,7 @@ def make_cases(ctx, n_slice, n_build):
 
 
 def correspond(ctx, n=None):
-    n_slice, n_build = n or (ctx.n(350, 14000), ctx.n(130, 5000))
+    n_slice, n_build = n or (ctx.n(420, 14000), ctx.n(160, 5000))
     cases = make_cases(ctx, n_slice, n_build)
     results = C.run_impl('collateral_driver', {'cases': cases}, nshards=C.NPROC)
     mism, cfail, bfail, errs = evaluate(cases, results)
